@@ -473,3 +473,77 @@ Definition demand_ok (d : demand) : bool :=
   | DAlloc n => n <=? max_bits
   | DStore b => ba_wellformed b
   end.
+
+(* ================================================================== layer B: state-machine side guards *)
+
+(* A BlockPartMessage, a ProposalMessage and a VoteMessage that pass ValidateBasic are queued for
+   the consensus state machine (consensus/state.go receiveRoutine -> handleMsg ->
+   addProposalBlockPart / setProposal / tryAddVote).  A panic there is recovered by
+   receiveRoutine, which then EXITS ("CONSENSUS FAILURE"): the node stops handling any input
+   while its peers stay connected.  ValidateBasic does not bound Part.Index or
+   Vote.ValidatorIndex from above; what makes such values harmless are the guards in front of
+   the slice accesses, modelled here:
+     types/part_set.go PartSet.AddPart:
+       if part.Index >= ps.total { return false, ErrPartSetUnexpectedIndex }
+       if ps.parts[part.Index] != nil { return false, nil }
+       if proof index/total differ or proof.Verify fails { return false, ErrPartSetInvalidProof }
+       ps.parts[part.Index] = part; ps.partsBitArray.SetIndex(int(part.Index), true); ps.count++
+     types/vote_set.go VoteSet.addVote:
+       if valIndex < 0 { return ErrVoteInvalidValidatorIndex }
+       lookupAddr, val := valSet.GetByIndex(valIndex)   (nil when valIndex >= Size())
+       if val == nil { return ErrVoteInvalidValidatorIndex }
+       ... voteSet.votes[valIndex], votesBitArray.SetIndex(valIndex) ...
+   An [access] is one indexing operation: the index used and the length of what is indexed. *)
+Inductive access := Acc (index len : Z).
+Definition acc_ok (a : access) : bool := let 'Acc i n := a in (0 <=? i) && (i <? n).
+
+(* a PartSet: len(ps.parts) = ps.total, pt_have[i] = (ps.parts[i] != nil) *)
+Record partset := { pt_total : Z; pt_have : list bool }.
+Definition pt_count (ps : partset) : Z := Z.of_nat (length (filter (fun b => b) (pt_have ps))).
+
+(* AddPart with the bound given as a comparison, so that the weakened form can be exhibited;
+   [genuine]: the part's proof has this index and total and verifies against the set's hash.
+   Result: added?, the accesses made *)
+Definition add_part_with (out_of_range : Z -> Z -> bool) (ps : partset) (index : Z) (genuine : bool)
+  : bool * list access :=
+  let a := Acc index (pt_total ps) in
+  if out_of_range index (pt_total ps) then (false, [])
+  else if nth (Z.to_nat index) (pt_have ps) false then (false, [a])
+  else if negb genuine then (false, [a])
+  else (true, [a; a; a]).
+Definition add_part := add_part_with (fun index total => total <=? index).       (* Index >= total *)
+Definition add_part_weak := add_part_with (fun index total => total <? index).   (* Index >  total *)
+
+(* what the state machine knows when the message arrives *)
+Record smstate := {
+  sm_height : Z;
+  sm_parts : option partset;     (* cs.ProposalBlockParts (None = nil) *)
+  sm_nvals : Z                   (* size of the validator set the vote sets are made for *)
+}.
+
+(* slice accesses the state machine makes with the numbers of a message.
+   addProposalBlockPart: other height or no part set -> ignored, else AddPart.
+   tryAddVote/addVote (votes for this height, precommits of the previous one): the index guard.
+   Proposal: no index; its part-set total sizes an allocation (see [demands]). *)
+Definition sm_accesses_with (addp : partset -> Z -> bool -> bool * list access)
+           (st : smstate) (m : cmsg) (genuine : bool) : list access :=
+  match m with
+  | MBlockPart h _ idx _ _ =>
+    if h =? sm_height st
+    then match sm_parts st with Some ps => snd (addp ps idx genuine) | None => [] end
+    else []
+  | MVote _ _ _ _ _ idx _ =>
+    if (idx <? 0) || (sm_nvals st <=? idx) then [] else [Acc idx (sm_nvals st); Acc idx (sm_nvals st)]
+  | _ => []
+  end.
+Definition sm_accesses := sm_accesses_with add_part.
+Definition sm_accesses_weak := sm_accesses_with add_part_weak.
+
+(* is the part of a BlockPartMessage added to the node's part set? *)
+Definition sm_part_added (st : smstate) (m : cmsg) (genuine : bool) : bool :=
+  match m with
+  | MBlockPart h _ idx _ _ =>
+    (h =? sm_height st) &&
+    match sm_parts st with Some ps => fst (add_part ps idx genuine) | None => false end
+  | _ => false
+  end.
